@@ -15,7 +15,13 @@
 (* 18 ConstrainedBowyerWatson (outline b) 19 extrude.CircleAlongSpline     *)
 (* 20 marching Field.March 21 UnitCube; flag of 10: 1 texture coordinates, *)
 (* 2 neighbouring points share one, 3 only some points carry one; flag of  *)
-(* 11/19: bit 0 closed path, bit 1 one radius per point                    *)
+(* 11/19: bit 0 closed path, bit 1 one radius per point; flag of 3/4/5:    *)
+(* the OPTION SUBSET of the texture coordinate options - 0 none (nil),     *)
+(* 1 all members, 2 + m: the options object present with exactly the       *)
+(* members of bit mask m (cylinder: top, bottom, side; cube: its six       *)
+(* faces) - an optional member of an optional object is a dimension of its *)
+(* own: sites that test the object and sites that test the member disagree *)
+(* exactly on the partly filled objects                                    *)
 (* p = <<size*2, n1, n2, flag>>                                            *)
 (***************************************************************************)
 EXTENDS Integers, Sequences, FiniteSets, TLC, Json
@@ -24,10 +30,13 @@ CONSTANT Big      \* TRUE: wider parameter ranges (thorough tier)
 
 N1 == IF Big THEN 0..9 ELSE 0..6
 N2 == IF Big THEN 0..8 ELSE 0..5
+\* cube: the empty object, one face only, one face missing (all 64 subsets in the wide configuration)
+CubeMasks == IF Big THEN 0..63 ELSE {0} \cup {1, 2, 4, 8, 16, 32} \cup {62, 61, 59, 55, 47, 31}
 Cases ==
     {[gen |-> gn, p |-> <<r, a, b, f>>] : gn \in {1, 2}, r \in {1, 6}, a \in N1, b \in N1, f \in {0}}
     \cup {[gen |-> gn, p |-> <<r, a, b, f>>] : gn \in {3, 4}, r \in {1, 2}, a \in {1, 3}, b \in {2}, f \in {0, 1}}
-    \cup {[gen |-> 5, p |-> <<r, a, b, f>>] : r \in {2}, a \in N1, b \in 0..3, f \in {0, 1}}
+    \cup {[gen |-> gn, p |-> <<2, 3, 2, 2 + m>>] : gn \in {3, 4}, m \in CubeMasks}
+    \cup {[gen |-> 5, p |-> <<r, a, b, f>>] : r \in {2}, a \in N1, b \in 0..3, f \in 0..9}
     \cup {[gen |-> gn, p |-> <<2, a, 0, f>>] : gn \in {6, 7, 9}, a \in N1, f \in {0, 1}}
     \cup {[gen |-> 8, p |-> <<2, a, b, f>>] : a \in N2, b \in N1, f \in {0, 1}}
     \cup {[gen |-> gn, p |-> <<2, a, b, f>>] : gn \in {10, 11}, a \in N1, b \in N2, f \in {0, 1, 2, 3}}
